@@ -11,6 +11,7 @@ from typing import (
     Callable,
     Generic,
     Hashable,
+    List,
     Mapping,
     Optional,
     Sequence,
@@ -23,6 +24,7 @@ from typing import (
 
 from ._missing import MISSING, MaybeMissing
 from .exceptions import EvaluationError, InsufficientInformationError
+from .iterable import Iter
 from .option import Option
 from .types import Evaluatable, MaybeEvaluatable, Options
 
@@ -220,12 +222,16 @@ class CaseWhen(Generic[A, B], Evaluatable[B]):
         self.default = default
 
     def _evaluate(self, value: A, options: Options) -> Evaluatable[B]:
+        # The branch taken depends on every condition evaluated on the way to it, so the
+        # options those conditions read are dependencies of the result as well.
+        tried: List[Evaluatable] = []
         for condition, result in self.cases:
+            tried.append(condition)
             if condition.evaluate(options)(value):
-                return result
+                return _DependsOn(result, Iter(*tried))
 
         if self.default is not MISSING:
-            return self.default
+            return _DependsOn(self.default, Iter(*tried))
 
         raise CaseWhenError(self.dispatch, value)
 
